@@ -50,10 +50,16 @@ def strategy(shard):
             n = draw(st.integers(5, 7))
             # letters, or numeric identifiers that are substrings of one another (real candidate ids are numbers)
             cands = (si.CANDS if draw(st.booleans()) else ["4", "47", "7", "74", "44", "77", "474"])[:n]
+            if draw(st.integers(0, 3)) == 0:
+                # a long ballot paper: ten to thirteen candidates, so that ranks reach two digits
+                n = draw(st.integers(10, 13))
+                cands = [str(c) for c in range(1, n + 1)] if draw(st.booleans()) else list("ABCDEFGHIJKLM")[:n]
             w, l = draw(st.lists(st.sampled_from(cands), min_size=2, max_size=2, unique=True))
             others = [c for c in cands if c not in (w, l)]
             E = sorted(draw(st.sets(st.sampled_from(others))))
             ranks = [draw(si.pref_list(cands)) for _ in range(draw(st.integers(1, 12)))]
+            if n >= 10:
+                ranks = [list(draw(st.permutations(cands)))[: draw(st.integers(n - 3, n))] if draw(st.booleans()) else r for r in ranks]
             return {"mode": "pred", "cands": cands, "w": w, "l": l, "E": E, "rankings": ranks}
 
         return pred()
